@@ -40,9 +40,19 @@ func FBP(reftree *tree.Tree, boottrees <-chan tree.Trees, cpus int, sup *Support
 		}
 	}
 	var wg sync.WaitGroup
+	var errmutex sync.Mutex
+	// keeps the first error reported by a worker
+	seterr := func(e error) {
+		errmutex.Lock()
+		if err == nil {
+			err = e
+		}
+		errmutex.Unlock()
+	}
 	for cpu := 0; cpu < cpus; cpu++ {
 		wg.Add(1)
 		go func(cpu int) {
+			defer wg.Done()
 			var inerr error
 			for treeV := range boottrees {
 				verifhook.Point("fbp.recv", cpu, treeV.Id)
@@ -51,15 +61,15 @@ func FBP(reftree *tree.Tree, boottrees <-chan tree.Trees, cpus int, sup *Support
 					break
 				}
 				if treeV.Err != nil {
-					err = treeV.Err
+					seterr(treeV.Err)
 					return
 				} else {
-					if inerr = treeV.Tree.ReinitIndexes(); err != nil {
-						err = inerr
+					if inerr = treeV.Tree.ReinitIndexes(); inerr != nil {
+						seterr(inerr)
 						return
 					}
-					if inerr = reftree.CompareTipIndexes(treeV.Tree); err != nil {
-						err = inerr
+					if inerr = reftree.CompareTipIndexes(treeV.Tree); inerr != nil {
+						seterr(inerr)
 						return
 					}
 					atomic.AddInt32(&ntrees, 1)
@@ -67,7 +77,7 @@ func FBP(reftree *tree.Tree, boottrees <-chan tree.Trees, cpus int, sup *Support
 					for i, e2 := range edges2 {
 						if !e2.Right().Tip() {
 							if inerr = edgeIndex.PutEdgeValue(e2, i, e2.Length()); inerr != nil {
-								err = inerr
+								seterr(inerr)
 								return
 							}
 						}
@@ -82,7 +92,6 @@ func FBP(reftree *tree.Tree, boottrees <-chan tree.Trees, cpus int, sup *Support
 				verifhook.Point("fbp.done", cpu, treeV.Id)
 				sup.IncrementProgress()
 			}
-			wg.Done()
 		}(cpu)
 	}
 
